@@ -498,7 +498,7 @@ func ruleSnapshotCleanup(r *Report) {
 				h.Check(ok2, "(*column.Collection).Snapshot/close", r.P.InstrPos(ex2), "temporary log closed on every exit", "an exit of Snapshot leaves the temporary log's file descriptor open")
 				ok3, ex3 := mustPassToReturn(succ, 0, func(ins ssa.Instruction) bool {
 					cc, _, isGo := callCommon(ins)
-					if cc == nil || isGo || !calleeIs(cc, "os.Remove") {
+					if cc == nil || isGo || !calleeIs(cc, "os.Remove", "os.RemoveAll") {
 						return false
 					}
 					return dependsOn(cc.Args[0], func(v ssa.Value) bool {
@@ -568,7 +568,7 @@ func ruleSnapshotCleanup(r *Report) {
 				h.Unknown("(*column.Collection).recorderOpen/cas", r.P.InstrPos(cas[0]), "branch on the compare-and-swap not recognised")
 			} else {
 				okC, _ := mustPassToReturn(fail, 0, isCallOrDefer("(*commit.Log).Close"))
-				okR, _ := mustPassToReturn(fail, 0, isCallOrDefer("os.Remove"))
+				okR, _ := mustPassToReturn(fail, 0, isCallOrDefer("os.Remove", "os.RemoveAll"))
 				h.Check(okC && okR, "(*column.Collection).recorderOpen/cas-fail", r.P.InstrPos(cas[0]), "losing the race cleans the file up", "when another snapshot is in progress the temporary file just created is neither closed nor removed")
 				// and the failure is reported
 				errRet := false
@@ -665,7 +665,7 @@ func ruleErrorFlow(r *Report, id, text string, floor int, fns []string, exceptio
 							callee = d.Call.Method.Name()
 						}
 						switch callee {
-						case "os.Remove", "(*commit.Log).Close", "(*os.File).Close":
+						case "os.Remove", "os.RemoveAll", "(*commit.Log).Close", "(*os.File).Close":
 						default:
 							n++
 							if badDefer == nil {
@@ -692,7 +692,7 @@ func ruleErrorFlow(r *Report, id, text string, floor int, fns []string, exceptio
 				}
 				if onlyDeferred {
 					switch callee {
-					case "os.Remove", "(*commit.Log).Close", "(*os.File).Close":
+					case "os.Remove", "os.RemoveAll", "(*commit.Log).Close", "(*os.File).Close":
 						return
 					}
 				}
